@@ -56,7 +56,15 @@ open C2pa.C18
 structure Sig where
   key : Nat
   signed : Bytes
+  /-- the payload slot of the COSE_Sign1 as found in the signature box: `none` = `nil` (detached,
+  what every C2PA signer writes), `some p` = an embedded payload -/
+  payload : Option Bytes := none
   deriving DecidableEq, Repr
+
+/-- the bytes the to-be-signed structure is built over: `parse_cose_sign1` and
+`Verifier::verify_signature` both overwrite the payload slot with the bytes of the claim box
+(`sign1.payload = Some(data.to_vec())`) — an embedded payload is never used -/
+def payloadUsed (_embedded : Option Bytes) (claim : Bytes) : Bytes := claim
 
 /-- (label, instance) of an assertion: `Claim::assertion_label_from_link` of a URI, or
 `label_raw()` / `instance()` of a box of the assertion store (`label__<n>`) -/
@@ -171,7 +179,8 @@ def redactedBy (reds : List Redaction) (ml : String) (k : Key) : Bool :=
 /-- `verify_internal`: signature over the claim bytes (the key is the one of the certificate in
 the signature box; trust is C05) -/
 def checkSig (dec : Dec) (m : Manifest) : List Failure :=
-  if (dec.sigOf m.sigBox).signed = m.claim then [] else [.sigMismatch m.label]
+  if (dec.sigOf m.sigBox).signed = payloadUsed (dec.sigOf m.sigBox).payload m.claim then []
+  else [.sigMismatch m.label]
 
 /-- one round of the assertion loop, without the tracking list -/
 def uriFailures (reds : List Redaction) (m : Manifest) (hu : HashedUri) : List Failure :=
@@ -589,7 +598,7 @@ def failStr : Failure → String
 /-! #### `verify`: a real store described to layer A
 
 `store=<manifest>|<manifest>|…` (store order, active last), one manifest
-`L=<label>;V=<version>;D=<claim id>;S=<id of the claim bytes the signature value was made over>;SH=<signature box id>;BH=<manifest box id>;A=<uri>,…;T=<box>,…;R=<redaction>,…`
+`L=<label>;V=<version>;D=<claim id>;S=<id of the claim bytes the signature value was made over>;P=<id of the payload embedded in the COSE_Sign1|->;SH=<signature box id>;BH=<manifest box id>;A=<uri>,…;T=<box>,…;R=<redaction>,…`
 with `<uri>` = `<r|x|m^<label>>~<label>~<inst>~<hash id>`, `<box>` =
 `<label>~<inst>~<hash id>~<-|<zero 0/1>^<target>^<manifest hash id>^<sig hash id|->>`,
 `<redaction>` = `<raw uri>~<manifest>~<label>~<inst>`; ids are hex. Under H-free an id stands for
@@ -599,6 +608,7 @@ whose `BH` it equals", else as claim bytes. -/
 structure PManifest where
   m : Manifest
   signed : Bytes
+  embedded : Option Bytes
   bh : Bytes
   uris : List HashedUri
   reds : List Redaction
@@ -650,6 +660,7 @@ def parseManifest (s : String) : Option PManifest :=
     some {
       m := ⟨field fs "L", v, d, sh, boxes.map (·.1), bh⟩
       signed := sg
+      embedded := (let e := field fs "P"; if e == "" || e == "-" then none else fromHex? e)
       bh := bh
       uris := uris
       reds := reds
@@ -659,8 +670,8 @@ def parseManifest (s : String) : Option PManifest :=
 /-- the decoders of a described store: tables keyed by the ids -/
 def decOf (ps : List PManifest) : Dec where
   sigOf := fun sb => match ps.find? (fun p => p.m.sigBox == sb) with
-    | some p => ⟨0, p.signed⟩
-    | none => ⟨0, []⟩
+    | some p => ⟨0, p.signed, p.embedded⟩
+    | none => ⟨0, [], none⟩
   decl := fun c => match ps.find? (fun p => p.m.claim == c) with
     | some p => p.uris
     | none => []
